@@ -111,9 +111,93 @@ MUTANTS = [
     {'name': 'P6 new recursive walk over program data', 'prop': 'C02', 'expect': 'P6 / value::Value::depth',
      'edits': [(VAL, "    pub fn try_into_bool(&self) -> Option<bool> {", "    pub fn depth(&self) -> usize {\n        match self {\n            Value::ObjTuple(t) => 1 + t.elements.iter().map(|v| v.depth()).max().unwrap_or(0),\n            _ => 0,\n        }\n    }\n\n    pub fn try_into_bool(&self) -> Option<bool> {"),
                (CORE, "    Ok(Value::Number(tuple.elements.len() as f64))", "    Ok(Value::Number((tuple.elements.len() + Value::ObjTuple(tuple).depth() * 0) as f64))")]},
+    # ---- C08 ----------------------------------------------------------------------------------------
+    {'name': 'X1 negate returns the Error instead of raising it', 'prop': 'C08', 'expect': 'X1 / vm::Vm::run -> vm::Vm::negate_impl',
+     'edits': [(VM, '''            let err = error!(ErrorKind::TypeError, "Unary operand must be a number.");
+            self.try_handle_error(err)?;
+        }
+        Ok(())
+    }
+
+    fn get_item_impl''', '''            let err = error!(ErrorKind::TypeError, "Unary operand must be a number.");
+            return Err(err);
+        }
+        Ok(())
+    }
+
+    fn get_item_impl''')]},
+    {'name': 'X1 get_item forwards the helper Err', 'prop': 'C08', 'expect': 'X1 / vm::Vm::get_item_impl -> vm::Vm::string_get_item',
+     'edits': [(VM, '''        if let Err(e) = result {
+            self.try_handle_error(e)?;
+        }
+        Ok(())
+    }
+
+    fn set_item_impl''', '''        result?;
+        Ok(())
+    }
+
+    fn set_item_impl''')]},
+    {'name': 'X1 call_native propagates the native Err', 'prop': 'C08', 'expect': 'vm::Vm::call_native',
+     'edits': [(VM, '''            Err(error) => {
+                let exc_object = self.new_root_obj_err_from_error(error);
+                self.poke(0, Value::ObjInstance(exc_object.as_gc()));
+                self.unwind_stack()?;
+            }''', '''            Err(error) => {
+                return Err(error);
+            }''')]},
+    {'name': 'X2 emit_return forgets JumpFinally', 'prop': 'C08', 'expect': 'X2 / emit_return',
+     'edits': [(COMP, '''            self.emit_byte(OpCode::Nil as u8);
+        }
+        if self.compiler().in_try_block {
+            self.emit_byte(OpCode::JumpFinally as u8);
+        }
+        self.emit_byte(OpCode::Return as u8);''', '''            self.emit_byte(OpCode::Nil as u8);
+        }
+        self.emit_byte(OpCode::Return as u8);''')]},
+    {'name': 'X3 return leaves the frame handlers registered', 'prop': 'C08', 'expect': 'X3 / yarel::vm::Vm::return_impl',
+     'edits': [(VM, '''        self.active_fiber_mut()
+            .exc_handlers
+            .retain(|handler| handler.frame_count <= frame_count);
+''', '''        let _ = frame_count;
+''')]},
+    {'name': 'X4 PopExcHandler back at catch entry', 'prop': 'C08', 'expect': 'X4 / try_statement: no PopExcHandler at catch entry',
+     'edits': [(COMP, '''        if have_catch {
+            if !self.match_token(TokenKind::Identifier) {''', '''        if have_catch {
+            self.emit_byte(OpCode::PopExcHandler as u8);
+            if !self.match_token(TokenKind::Identifier) {''')]},
+    {'name': 'X5 EndFinally only with a finally block', 'prop': 'C08', 'expect': 'X4 / try_statement: EndFinally on every path',
+     'edits': [(COMP, '''            self.end_scope();
+        }
+        // Always emitted: a `return` inside the try block resumes from here (JumpFinally), with or
+        // without a finally block.
+        self.emit_byte(OpCode::EndFinally as u8);
+''', '''            self.end_scope();
+            self.emit_byte(OpCode::EndFinally as u8);
+        }
+''')]},
 ]
 
 BENIGN = [
+    {'name': 'wrapper around try_handle_error', 'prop': 'C08',
+     'edits': [(VM, '''            let err = error!(ErrorKind::TypeError, "Unary operand must be a number.");
+            self.try_handle_error(err)?;
+        }
+        Ok(())
+    }
+
+    fn get_item_impl''', '''            let err = error!(ErrorKind::TypeError, "Unary operand must be a number.");
+            self.raise(err)?;
+        }
+        Ok(())
+    }
+
+    fn raise(&mut self, error: Error) -> Result<(), Error> {
+        let r = self.try_handle_error(error);
+        r
+    }
+
+    fn get_item_impl''')]},
     {'name': 'extra safe unwrap in an opcode handler + reordered independent statements', 'prop': 'C02',
      'edits': [(VM, "let top = self.peek(0);", "let top = Some(self.peek(0)).unwrap();")]},
     {'name': 'mark body split into a helper + match instead of if-let', 'prop': 'C01',
